@@ -22,3 +22,5 @@ def run(ck):
     traps.r16_full_destination_box_in_trap_space(ck, P)
     traps.r17_extents_follow_the_lines(ck, P)
     traps.r18_error_term_interval_is_closed(ck, P)
+    traps.r19_zero_source_operators_never_refused(ck, P)
+    traps.r20_edge_products_in_wide_type(ck, P)
